@@ -155,9 +155,12 @@ func runC09(c *Ctx) {
 	obsCore, logs := observer.New(zapcore.DebugLevel)
 	w.logs = logs
 	var core zapcore.Core
-	shape := g.Draw(7)
+	shape := g.Draw(8)
 	useSampler := false
 	switch shape {
+	case 7:
+		// a wide tee: six IO cores (one of them hooked) and the observer
+		core = zapcore.NewTee(mkIO(false), mkIO(true), mkIO(false), zapcore.RegisterHooks(mkIO(false), func(zapcore.Entry) error { return nil }), mkIO(false), mkIO(false), obsCore)
 	case 0:
 		core = mkIO(false)
 	case 1:
